@@ -2,9 +2,9 @@
 
 from __future__ import annotations
 
-from functools import lru_cache
 from ipaddress import NetmaskValueError, IPv4Address, IPv4Network
 from itertools import product
+from typing import Optional
 
 from cisco_acl import helpers as h
 from cisco_acl.base import Base
@@ -41,6 +41,7 @@ class Wildcard(Base):
         self.ipnet: OIpNet = None  # IPv4Network of contiguous wildcard
         self._ncwb: LInt = []  # non-contiguous wildcard bits
         self._prefixlen: int = 0  # Prefix length of contiguous wildcard
+        self._ipnets: Optional[LIpNet] = None  # ipnets() cache, reset by line
         super().__init__(**kwargs)  # platform, note
         self.max_ncwb: int = init_max_ncwb(**kwargs)
         self.line = line
@@ -74,6 +75,7 @@ class Wildcard(Base):
         prefix_o, wildmask_o = self._create_prefix(line)
         self._prefix = prefix_o
         self._wildmask = wildmask_o
+        self._ipnets = None
         self.ipnet = self._create_ipnet()
         ncwb, prefixlen = self._create_ncwb()
         self._ncwb = ncwb
@@ -180,7 +182,6 @@ class Wildcard(Base):
             data["uuid"] = self.uuid
         return data
 
-    @lru_cache
     def ipnets(self) -> LIpNet:
         """List of IPv4Network that match this wildcard.
 
@@ -190,6 +191,8 @@ class Wildcard(Base):
             wildcard.ipnets() -> [IPv4Network("10.0.0.0/30"),
                                   IPv4Network("10.0.1.0/30")]
         """
+        if self._ipnets is not None:
+            return self._ipnets
         ipnets: LIpNet = []
         prefix_i = int(self._prefix)
         repeat = len(self._ncwb)
@@ -203,6 +206,7 @@ class Wildcard(Base):
                     prefix_i_ &= ~mask
             ipnet = IPv4Network((prefix_i_, self._prefixlen))
             ipnets.append(ipnet)
+        self._ipnets = ipnets
         return ipnets
 
     # =========================== helper =============================
